@@ -122,6 +122,10 @@ def universes():
     t["same_ts_2"] = make_event("B", 1, 50, [["e", "x"]], "same ts 2")
     # created_at 0 ("accepted or refused": the event library re-dates a falsy created_at; whatever is stored must be keyed coherently
     # and must go away completely when deleted or superseded)
+    # values of different JSON types that compare (and hash) equal in Python: 1 == True == 1.0, 0 == False == 0.0
+    t["num_1"] = make_event("A", 1, 62, [["t", 1]], "")
+    t["bool_true"] = make_event("A", 1, 63, [["t", True]], "")
+    t["float_1"] = make_event("A", 1, 64, [["t", 1.0], ["t", 0], ["t", False]], "")
     t["epoch"] = make_event("A", 1, 0, [["t", "z"]], "created at the epoch")
     t["epoch_repl"] = make_event("A", 10000, 0, [["t", "z"]], "replaceable, created at the epoch")
     t["del_epoch"] = make_event("A", 5, 80, [["e", t["epoch"]["id"]]], "")
